@@ -32,6 +32,17 @@ func newTokenizer(kind int, cfg sx.SX) tokenizers.ITokenizer {
 		l := sx.AsList(cfg)
 		// set quotes first when they would collide with the default separator, and vice versa
 		seps, quotes := sx.AsRunes(l[0]), sx.AsRunes(l[1])
+		// the caller's two lists are slices of one array (the separators have spare capacity that holds the quotes): a
+		// tokenizer that appends to what it was given would overwrite the caller's quote symbols
+		pool := append(append(make([]rune, 0, len(seps)+len(quotes)+2), seps...), quotes...)
+		seps, quotes = pool[:len(seps)], pool[len(seps):]
+		collides := false
+		for _, s := range seps {
+			collides = collides || s == '"'
+		}
+		if !collides {
+			t.SetFieldSeparators(seps)
+		}
 		t.SetFieldSeparators([]rune{0x1})
 		t.SetQuoteSymbols(quotes)
 		t.SetFieldSeparators(seps)
@@ -329,7 +340,7 @@ func probeFarPositions() string {
 var warmTok = map[string]tokenizers.ITokenizer{}
 var warmLast = map[string]string{}
 
-var tokAlphabet = []rune{'ÿ', 'À', 'Ā', 'a', 'Z', '1', '0', '.', '-', '/', '*', '"', '\'', '<', '>', '=', '!', '{', '}', '#', ',', ' ', '\r', '\n', 'é', '日', '😀', 0xFFFF, '_', '(', '\t', 'e', '+', ';'}
+var tokAlphabet = []rune{'ÿ', 'À', 'Ā', 'a', 'Z', '1', '0', '.', '-', '/', '*', '"', '\'', '<', '>', '=', '!', '{', '}', '#', ',', ' ', '\r', '\n', 'é', '日', '😀', 0xFFFF, '_', '(', '\t', 'e', '+', ';', 0x2028, '\f', 0x85, 0xFEFF}
 
 func tokNontrivial(text []rune) bool {
 	classes := map[int]bool{}
@@ -512,7 +523,7 @@ func genTok(optionMode string) func(ctx *Ctx) {
 
 func init() {
 	register(&Prop{ID: "C04", Gen: genTok("none"), Run: runTok("C04"), Human: tokHuman,
-		Rule: "strings over the alphabet {letters, digits, . - / * \" ' < > = ! { } # , ; space tab CR LF, e-acute, CJK, emoji, U+FFFF, _ ( e +}: exhaustive up to length 2 (quick) / 3 (thorough) and random strings up to length ~16 built from characters and multi-character fragments, on the four tokenizers (CSV under four separator/quote configurations) with no option enabled; non-trivial = at least two character classes; distinct by input hash"})
+		Rule: "strings over the alphabet {letters, digits, . - / * \" ' < > = ! { } # , ; space tab CR LF, e-acute, CJK, emoji, U+FFFF, _ ( e +, U+2028, FF, U+0085, U+FEFF}: exhaustive up to length 2 (quick) / 3 (thorough) and random strings up to length ~16 built from characters and multi-character fragments, on the four tokenizers (CSV under four separator/quote configurations) with no option enabled; non-trivial = at least two character classes; distinct by input hash"})
 	register(&Prop{ID: "C15", Gen: genTok("all"), Run: runTok("C15"), Human: tokHuman,
 		Rule: "the C04 input space x option combinations: quick = {none, all, 3 fixed, 4 random} per input plus 12 option-sensitive inputs under all 128 option sets, thorough = all 128 on every input of length <= 2 over the alphabet and 16 (none, all, 14 drawn) on every other input; the four tokenizers; non-trivial = at least two character classes; distinct by input hash"})
 	register(&Prop{ID: "C12", Gen: genTok("all"), Run: runTok("C12"), Human: tokHuman,
